@@ -63,6 +63,7 @@ type Obligation struct {
 	Model   string
 	Output  string
 	Replay  *ReplaySpec
+	Extra   []string // instances of quantified hypotheses relevant to this goal
 }
 
 type ReplaySpec struct {
@@ -90,8 +91,9 @@ type VC struct {
 	replay   *ReplaySpec
 	entryH8  string
 	defOf    map[string]string // define-fun name -> its term
+	sortOf   map[string]string // declared / defined name -> sort
 	consts   map[string]string // heap locations known to hold a literal
-	hyps     []func(inst string) string // quantified hypotheses, instantiable at a term
+	hyps     []*hyp // quantified hypotheses, instantiated per obligation
 	instantiating bool
 	bound    []string // names of quantifier-bound variables currently in scope
 	skR, skI string   // skolem constants of the frame obligations
@@ -131,6 +133,7 @@ func (vc *VC) def(sort, term, hint string) string {
 		vc.defOf = map[string]string{}
 	}
 	vc.defOf[n] = term
+	vc.setSort(n, sort)
 	return n
 }
 
@@ -147,6 +150,7 @@ func (vc *VC) defS(s Sort, term, hint string) string { return vc.def(s.String(),
 func (vc *VC) fresh(sort, hint string) string {
 	n := vc.freshName(hint)
 	vc.emit(fmt.Sprintf("(declare-const %s %s)", n, sort))
+	vc.setSort(n, sort)
 	return n
 }
 
@@ -168,6 +172,7 @@ func (vc *VC) oblige(kind, note, reach, goal string, tags ...string) *Obligation
 	if full == "true" {
 		return nil
 	}
+	extra := vc.instantiateFor(full)
 	idx := vc.counts[kind]
 	vc.counts[kind]++
 	o := &Obligation{
@@ -180,6 +185,7 @@ func (vc *VC) oblige(kind, note, reach, goal string, tags ...string) *Obligation
 		VC:      vc,
 		Bounded: vc.Bounded,
 		Replay:  vc.replay,
+		Extra:   extra,
 	}
 	vc.obls = append(vc.obls, o)
 	if !strings.Contains(full, "(forall ") && !strings.Contains(full, "(exists ") {
@@ -336,4 +342,48 @@ func (vc *VC) saneSink(w string) {
 	l := sel(vc.entry.H["Wlen"], w)
 	vc.assume(not(sel(vc.entry.H["Wfail"], w)))
 	vc.assume(and(app("bvsle", bvLit(64, 0), l), app("bvslt", l, bvLit(64, 1<<40))))
+}
+
+func (vc *VC) setSort(n, sort string) {
+	if vc.sortOf == nil {
+		vc.sortOf = map[string]string{
+			"Sin":  "(Array (_ BitVec 32) (Array (_ BitVec 64) (_ BitVec 8)))",
+			"Send": "(Array (_ BitVec 32) (_ BitVec 64))",
+		}
+	}
+	vc.sortOf[n] = sort
+}
+
+// arraySort returns the sort of an array-valued term ("" if unknown).
+func (vc *VC) arraySort(x *sexp) string {
+	if x.list == nil {
+		return vc.sortOf[x.atom]
+	}
+	if len(x.list) == 0 || x.list[0].list != nil {
+		return ""
+	}
+	switch x.list[0].atom {
+	case "select":
+		if len(x.list) != 3 {
+			return ""
+		}
+		a := vc.arraySort(x.list[1])
+		if !strings.HasPrefix(a, "(Array ") {
+			return ""
+		}
+		sx := parseSexp(a)
+		if len(sx.list) != 3 {
+			return ""
+		}
+		return sx.list[2].String()
+	case "store":
+		if len(x.list) == 4 {
+			return vc.arraySort(x.list[1])
+		}
+	case "ite":
+		if len(x.list) == 4 {
+			return vc.arraySort(x.list[2])
+		}
+	}
+	return ""
 }
